@@ -1,10 +1,10 @@
 #!/bin/bash
 # usage: selftest/mutant.sh <patch-file> <PROP> [PROP...]     (env TIER=quick|thorough)
 # Applies the patch to a scratch worktree of /repo (never to /repo itself), runs the named checks against it
-# and prints their verdicts. The worktree is removed afterwards; the shadow build dir is reused between mutants.
+# and prints their verdicts. MUT_SCR=<dir> chooses another scratch path (parallel runs need distinct ones). The worktree is removed afterwards; the shadow build dir is reused between mutants.
 set -u
 PATCH=$(realpath "$1"); shift
-SCR=/var/tmp/sg-mut
+SCR=${MUT_SCR:-/var/tmp/sg-mut}
 cd /verif
 git -C /repo worktree remove --force $SCR >/dev/null 2>&1
 rm -rf $SCR
